@@ -654,7 +654,8 @@ def line_of(t):
     return " ".join(t)
 
 
-_ref = Sim()
+import threading
+_tls = threading.local()          # the engine judges batches in parallel threads: one simulation per thread
 REFERENCE_NAME = ("python simulation with native reference semantics (lists/dicts shared by identity, recursive copy for clone, "
                   "Fraction arithmetic for numeric equality, % formatting for toString)")
 
@@ -663,8 +664,11 @@ def reference(line):
     """Stateful: lines arrive in order; every history starts with `reset`.  None for unguarded (`!`) known-finding probes."""
     if line.startswith("!"):
         return None
+    sim = getattr(_tls, "sim", None)
+    if sim is None:
+        sim = _tls.sim = Sim()
     try:
-        return _ref.apply(line)
+        return sim.apply(line)
     except Exception:
         return None
 
@@ -1079,7 +1083,7 @@ def gen(rng, tier):
     cases += numeric_eq_cases(rng)
     cases += growth_cases(rng, tier)
     cases += deep_cases(rng)
-    nh = 700 if tier == "quick" else 30000
+    nh = 2500 if tier == "quick" else 40000
     for i in range(nh):
         cases.append(history(rng, rng.choice([12, 25, 40, 60, 90]) if i % 50 else 300))
     rng.shuffle(cases)
